@@ -368,7 +368,10 @@ class Formatter(FormatterInterface):
         # Get a table of functions for this type, if available
         arg_type = self.scalar_type
         if hasattr(c.args[0], "dtype"):
-            if c.args[0].dtype == L.DataType.REAL:
+            # real function family only if no argument is of the (possibly complex) scalar type
+            if c.args[0].dtype == L.DataType.REAL and not any(
+                getattr(arg, "dtype", None) == L.DataType.SCALAR for arg in c.args
+            ):
                 arg_type = self.real_type
         else:
             warnings.warn(f"Syntax item without dtype {c.args[0]}")
